@@ -394,8 +394,11 @@ impl<K1: Clone + Eq + Hash, K2: Copy + Eq + Hash, V: PartialEq> PartitionedCache
                     self.current_size -= 1;
 
                     if dup_expiry == partition.next_expiry {
+                        // the replaced tuple was (one of) the first to expire:
+                        // the new minimum can be in any of the partition's
+                        // record sets, not just this one.
                         let mut new_next_expiry = expiry;
-                        for (_, e) in tuples {
+                        for (_, e) in partition.records.values().flatten() {
                             if *e < new_next_expiry {
                                 new_next_expiry = *e;
                             }
